@@ -1,1 +1,8 @@
 import ThriftVerif.Props.C14
+#print axioms Props.C14.queries_match_paths
+#print axioms Props.C14.order_independent
+#print axioms Props.C14.error_iff
+#print axioms Props.C14.json_roundtrip
+#print axioms Props.C14.no_panic_partial
+#print axioms Props.C14.no_panic_repaired
+#print axioms Props.C14.getpath_terminates_partial
